@@ -77,6 +77,7 @@ impl ZmqMessage {
 //@|            index >= self.fr().len() ==> r is None,
 //@ end
 //@ item src/message.rs :: impl ZmqMessage / fn iter
+//@ only-if-not STUB_ITER
 //@ ret r
 //@ spec
 //@|        ensures r.remaining() == self.fr().as_ref(), r.decrease() is Some,
@@ -87,6 +88,7 @@ impl ZmqMessage {
 //@|        ensures r@ == self.fr(),
 //@ end
 //@ item src/message.rs :: impl ZmqMessage / fn prepend
+//@ stub-if STUB_ITER
 //@ spec
 //@|        ensures final(self).fr() == message.fr() + old(self).fr(),
 //@ loop 1 it
